@@ -168,9 +168,15 @@ fn main() {
         rep.distinct += 1;
         let s = seed.wrapping_mul(1000003).wrapping_add(i as u64);
         let timed = async {
-            match tokio::time::timeout(std::time::Duration::from_secs(8), one(&case, s)).await {
+            let first = tokio::time::timeout(std::time::Duration::from_secs(8), one(&case, s)).await;
+            // a loaded machine must not turn into a verdict: the same case again with a much longer limit
+            let second = match first {
+                Ok(r) => Ok(r),
+                Err(_) => tokio::time::timeout(std::time::Duration::from_secs(60), one(&case, s)).await,
+            };
+            match second {
                 Ok(r) => r,
-                Err(_) => Err(("noise_stuck".to_string(), "the stream neither completed nor failed within 8 s on a cooperative transport (livelock / runaway writer)".to_string())),
+                Err(_) => Err(("noise_stuck".to_string(), "the stream neither completed nor failed within 8 s (nor within 60 s when run again) on a cooperative transport (livelock / runaway writer)".to_string())),
             }
         };
         match catch(|| rt.block_on(timed)) {
